@@ -124,6 +124,25 @@ PROPS["C10"] = {
     "assumptions": [],
 }
 
+# the source translator's part of the tie: per property, the extra property file whose theorems state that the
+# Go functions translated on this run (coq/Gen/Src*.v, by tools/globalsgen srcgen.go) equal the model's functions
+SOURCE_TIE = {
+    "C01": ("C01_source", "identifier.Version"),
+    "C02": ("C02_source", "identifier.Kind"),
+    "C05": ("C05_source", "Header.Valid"),
+    "C06": ("C06_source", "Subject.countTokenWildcards"),
+    "C09": ("C09_source", "RevocationList.Revoke / ClearRevocation / IsRevoked / allRevoked / MaybeCompact (v2 and v1compat)"),
+    "C10": ("C10_source", "Subject.IsContainedIn / HasWildCards (v2 and v1compat)"),
+    "C16": ("C16_source", "Subject.IsContainedIn / HasWildCards (v2 and v1compat)"),
+    "C18": ("C18_source", "cleanSubject (v2 and v1compat)"),
+    "C20": ("C20_source", "TagList / StringList Contains, Add, Remove"),
+}
+for _pid, (_pf, _fns) in SOURCE_TIE.items():
+    PROPS[_pid]["extra_property_files"] = list(PROPS[_pid].get("extra_property_files", [])) + [_pf]
+    PROPS[_pid]["level_text"] += (" SOURCE TIE (Properties/%s.v): %s is TRANSLATED from the Go source of the working tree on every run "
+        "(go/ast + go/types -> Gallina, coq/Gen/Src*.v) and proved equal, for all arguments, to the model function the theorems above are about; "
+        "a change to that function changes the translation and the equality must be re-proved." % (_pf, _fns))
+
 NOT_APPLICABLE = {}
 
 # finding id -> predicate on a violation record (dict with 'what' and 'input')
